@@ -27,6 +27,7 @@ class Intervals:
             if i.op == "load" and self.fi is not None:
                 tok = self.fi.load_atom.get(i.id)
                 if tok is not None and tok[0] == "ld": return ("ld", tok[1])
+                if tok is not None and tok[0] == "entry": return tok
                 if tok is not None and tok[0] == "st":
                     st = self.fn.bmap[tok[1]].insts[tok[2]]
                     if not st.ops[0]["t"].endswith("*"): o = st.ops[0]; continue
